@@ -258,6 +258,10 @@ func opDiskFind(f []string) string {
 	os.Symlink(filepath.Join(root, "deep", "inner"), filepath.Join(root, "hop"))
 	os.Symlink(filepath.Join(root, "d"), filepath.Join(root, "deep", "dm"))
 	real := realArg(root, pat)
+	if !strings.Contains(pat, "/") {
+		// a pattern without a directory part: looked up from inside the directory
+		os.Chdir(filepath.Join(root, "d"))
+	}
 	var opts []fileseq.FileOption
 	if strict {
 		opts = append(opts, fileseq.StrictPadding)
@@ -513,7 +517,7 @@ func genDiskFind(r *Rand, n int, thorough bool, emit func(string)) {
 		base := r.Pick([]string{"foo.", "foo_", "foo", "a.b.", "img-", "x.1.", "ff"})
 		ext := r.Pick([]string{".exr", ".tar.gz", "", ".e", ".f"})
 		ents := genEntries(r, true, base, ext)
-		dir := r.Pick([]string{"/T/d/", "d/", "./d/", "/T/d//", "/T/hop/../dm/", "hop/../dm/"})
+		dir := r.Pick([]string{"/T/d/", "d/", "./d/", "/T/d//", "/T/hop/../dm/", "hop/../dm/", ""})
 		dirok := "1"
 		if r.Chance(1, 20) {
 			dir = "/T/nope/"
